@@ -7,9 +7,10 @@ CONSTANTS
   Ops = {"newuser","setuser","deluser","getuser","restart","login","update1","update2","update3"}
   SubKinds = {"put","del"}
   Thin = FALSE
+  Long = TRUE
   Rand = TRUE
 INIT Init
 NEXT Next
 ACTION_CONSTRAINT Emit
-INVARIANTS TypeOK ViewsAgree HashOnly RestartIsIdentity
+INVARIANTS TypeOK ViewsAgree HashOnly RestartIsIdentity NoOverlongAccount
 CHECK_DEADLOCK FALSE
